@@ -89,3 +89,115 @@ Proof.
     + exists (mkRule 0 [T 2]), 0, 1. split; [|reflexivity].
       eapply c_pred with (r := mkRule 0 [T 0; NT 0; T 1]) (d := 1) (a := 0); eauto; simpl; auto.
 Qed.
+
+(* ------------------------------------------------------------------------------------------
+   LALR half, never-late direction.  Stated over the executable models of lalr_analysis.py
+   (LR/Automaton.v) and ParserState.feed_token (LR/Driver.v), which C02 ties to the code on every
+   run; [viable] and [productive_bodies] are the Earley-side definitions above.  Only LR(0) item
+   validity is used (every item of a reached state is justified: kernel / root / predicted by a
+   justified item) - nothing about look-ahead sets, so the theorems hold whatever conflicts were
+   resolved.  G = user rules, the model runs on G ++ [$root -> start] as lark does. *)
+From Coq Require Import ZArith.
+From LV Require Import LR.Driver LR.Driver_proofs LR.Automaton LR.Viable LR.Viable_proofs LR.Viable_model.
+
+(* any table with a valid item annotation: every reachable stack spells a viable prefix *)
+Theorem C08_lalr_valid_items_viable (tok : Type) (ttype : tok -> nat) (G : grammar) (P : ptable) (start : nat)
+        (items : state -> list (rule * nat)) ss vs :
+  wf_items_v G P start items -> productive_bodies G tok (Driver_proofs.tmatch tok ttype) ->
+  stack_ok tok ttype G P ss vs ->
+  viable G tok (Driver_proofs.tmatch tok ttype) start (consumed tok vs).
+Proof. exact (fun WV Hp => stack_viable tok ttype G P start items WV Hp ss vs). Qed.
+Print Assumptions C08_lalr_valid_items_viable.
+
+(* if after consuming u the driver shifts token k (after any reductions), u ++ [k] can be
+   extended to a sentence: a token is never shifted after the first offending one *)
+Theorem C08_lalr_shift_viable (G : grammar) (prio : list Z) (rootnt start tEND fuel : nat)
+        (A : lr0) (rel : relations) (LA : list (nat * nat * nat)) (R : rows) (qe : nat)
+        fuel' u c k c' :
+  compute_lalr (G ++ [mkRule rootnt [NT start]]) prio [length G] tEND fuel = ATable A rel LA R ->
+  (forall r, In r G -> ~ In (NT rootnt) (rhs r)) -> start <> rootnt ->
+  end_state (G ++ [mkRule rootnt [NT start]]) [length G] A 0 = Some qe ->
+  productive_bodies G nat (Driver_proofs.tmatch nat (fun k => k)) -> (exists r, In r G /\ lhs r = start) ->
+  feed_all nat (fun k => k) (ptable_of_rows R 0 qe) fuel' (init_config (ptable_of_rows R 0 qe)) u = Shifted c ->
+  feed nat (fun k => k) (ptable_of_rows R 0 qe) fuel' c k false = Shifted c' ->
+  viable G nat (Driver_proofs.tmatch nat (fun k => k)) start (u ++ [k]).
+Proof.
+  exact (fun H1 H2 H3 H4 H5 H6 =>
+           model_shift_viable G prio rootnt start tEND fuel A rel LA R qe H1 H2 H3 H4 H5 H6 fuel' u c k c').
+Qed.
+Print Assumptions C08_lalr_shift_viable.
+
+(* when UnexpectedToken is raised, the tokens consumed so far (a prefix of the input, all
+   reductions included) form a viable prefix: the error is never late *)
+Theorem C08_lalr_error_not_late (G : grammar) (prio : list Z) (rootnt start tEND fuel : nat)
+        (A : lr0) (rel : relations) (LA : list (nat * nat * nat)) (R : rows) (qe : nat)
+        fuel' w c :
+  compute_lalr (G ++ [mkRule rootnt [NT start]]) prio [length G] tEND fuel = ATable A rel LA R ->
+  (forall r, In r G -> ~ In (NT rootnt) (rhs r)) -> start <> rootnt ->
+  end_state (G ++ [mkRule rootnt [NT start]]) [length G] A 0 = Some qe ->
+  productive_bodies G nat (Driver_proofs.tmatch nat (fun k => k)) -> (exists r, In r G /\ lhs r = start) ->
+  feed_all nat (fun k => k) (ptable_of_rows R 0 qe) fuel' (init_config (ptable_of_rows R 0 qe)) w = Unexpected c ->
+  exists w1 w2, w = w1 ++ w2 /\ consumed nat (vstack c) = w1 /\
+                viable G nat (Driver_proofs.tmatch nat (fun k => k)) start w1.
+Proof.
+  exact (fun H1 H2 H3 H4 H5 H6 =>
+           model_error_not_late G prio rootnt start tEND fuel A rel LA R qe H1 H2 H3 H4 H5 H6 fuel' w c).
+Qed.
+Print Assumptions C08_lalr_error_not_late.
+
+(* accepts(): a terminal whose trial feed succeeds can legally come next, and $END is accepted
+   only after a sentence *)
+Theorem C08_lalr_accepts_sound (G : grammar) (prio : list Z) (rootnt start tEND fuel : nat)
+        (A : lr0) (rel : relations) (LA : list (nat * nat * nat)) (R : rows) (qe : nat)
+        fuel' u c :
+  compute_lalr (G ++ [mkRule rootnt [NT start]]) prio [length G] tEND fuel = ATable A rel LA R ->
+  (forall r, In r G -> ~ In (NT rootnt) (rhs r)) -> start <> rootnt ->
+  end_state (G ++ [mkRule rootnt [NT start]]) [length G] A 0 = Some qe ->
+  productive_bodies G nat (Driver_proofs.tmatch nat (fun k => k)) -> (exists r, In r G /\ lhs r = start) ->
+  feed_all nat (fun k => k) (ptable_of_rows R 0 qe) fuel' (init_config (ptable_of_rows R 0 qe)) u = Shifted c ->
+  (forall k c', feed nat (fun k => k) (ptable_of_rows R 0 qe) fuel' c k false = Shifted c' ->
+                viable G nat (Driver_proofs.tmatch nat (fun k => k)) start (u ++ [k])) /\
+  (forall t, feed nat (fun k => k) (ptable_of_rows R 0 qe) fuel' c tEND true = Accepted t ->
+             derives G nat (Driver_proofs.tmatch nat (fun k => k)) [NT start] u).
+Proof.
+  exact (fun H1 H2 H3 H4 H5 H6 H7 =>
+           conj (fun k c' => model_accepts_sound G prio rootnt start tEND fuel A rel LA R qe H1 H2 H3 H4 H5 H6 fuel' u c k c' H7)
+                (fun t => model_accepts_end_sound G prio rootnt start tEND fuel A rel LA R qe H1 H2 H3 H4 fuel' u c t H7)).
+Qed.
+Print Assumptions C08_lalr_accepts_sound.
+
+(* NOT PROVED: the never-early direction needs look-ahead completeness (every terminal that
+   can follow a viable prefix has an action after the reductions it triggers) and holds only
+   for conflict-free tables.  Kept as the full statement; on the code it is checked
+   differentially (position of the error vs the longest viable prefix). *)
+Definition C08_lalr_never_early_full_statement : Prop :=
+  forall (G : grammar) (prio : list Z) (rootnt start tEND fuel : nat)
+         (A : lr0) (rel : relations) (LA : list (nat * nat * nat)) (R : rows) (qe : nat) fuel' u c k,
+  compute_lalr (G ++ [mkRule rootnt [NT start]]) prio [length G] tEND fuel = ATable A rel LA R ->
+  (forall r, In r G -> ~ In (NT rootnt) (rhs r) /\ ~ In (T tEND) (rhs r)) -> start <> rootnt ->
+  end_state (G ++ [mkRule rootnt [NT start]]) [length G] A 0 = Some qe ->
+  (forall q s, In s (la_terms LA q) -> trans A q (T s) = None /\ length (la_rules LA q s) <= 1) ->
+  feed_all nat (fun k => k) (ptable_of_rows R 0 qe) fuel' (init_config (ptable_of_rows R 0 qe)) u = Shifted c ->
+  k <> tEND ->
+  viable G nat (Driver_proofs.tmatch nat (fun k => k)) start (u ++ [k]) ->
+  exists fuel'' c', feed nat (fun k => k) (ptable_of_rows R 0 qe) fuel'' c k false = Shifted c'.
+
+(* Non-vacuity for the LALR half: exG = S -> a S b | c with $root = non-terminal 1, $END = 3.
+   The table is built; after "a c" the token b is shifted; "a b" is rejected with consumed = "a". *)
+Example C08_lalr_example :
+  match compute_lalr (exG ++ [mkRule 1 [NT 0]]) [0%Z; 0%Z; 0%Z] [2] 3 100 with
+  | ATable A rel LA R =>
+      match end_state (exG ++ [mkRule 1 [NT 0]]) [2] A 0 with
+      | Some qe =>
+          let P := ptable_of_rows R 0 qe in
+          match feed_all nat (fun k => k) P 50 (init_config P) [0; 2] with
+          | Shifted c => exists c', feed nat (fun k => k) P 50 c 1 false = Shifted c'
+          | _ => False
+          end /\
+          (exists c, feed_all nat (fun k => k) P 50 (init_config P) [0; 1] = Unexpected c /\
+                     consumed nat (vstack c) = [0])
+      | None => False
+      end
+  | _ => False
+  end.
+Proof. vm_compute. split; [eexists; reflexivity | eexists; split; reflexivity]. Qed.
